@@ -336,6 +336,9 @@ func (ex *Executor) branch(st *State, c *smt.Term) bool {
 		return false
 	}
 	ex.Stats.Forks++
+	if len(st.PC) > 3000 {
+		ex.abort("runaway forking at %s: %s", ex.curPos(st), c.Short())
+	}
 	other := st.clone()
 	other.addPC(nc)
 	ex.work = append(ex.work, other)
